@@ -884,10 +884,11 @@ func (w *world) compare(c *epochCalc, e *expectation, a *actualState, pre, post 
 		return miss("hook-containment", "blocked-receiver", "a lock's reward receiver is a blocked module account, so the reward transfer and with it the whole incentives epoch hook must fail and leave no trace, but gauges or the module balance changed")
 	case !e.hookFail && expectChange && !changed:
 		switch {
+		case c.valued && w.thr.Cmp(big.NewRat(1, 1)) <= 0:
+			// checked first: this known cause explains a dead epoch whether or not an owner also has several receivers
+			return miss("epoch-not-applied", "min-value-below-one-reward-unit", "nothing at all happened at this epoch end (no gauge started, paid or finished); the reference expects payouts of %s. The configured minimum %suosmo is worth %s %s, i.e. not more than one unit, and a %s reward had to be valued", e.total, w.minVal, w.thr.FloatString(3), fooDenom, fooDenom)
 		case multi:
 			return miss("receiver-payout", "one-owner-two-receivers", "nothing at all happened at this epoch end (no gauge started, paid or finished); the reference expects payouts of %s (an owner has locks with different reward receivers, one of them blocked)", e.total)
-		case c.valued && w.thr.Cmp(big.NewRat(1, 1)) <= 0:
-			return miss("epoch-not-applied", "min-value-below-one-reward-unit", "nothing at all happened at this epoch end (no gauge started, paid or finished); the reference expects payouts of %s. The configured minimum %suosmo is worth %s %s, i.e. not more than one unit, and a %s reward had to be valued", e.total, w.minVal, w.thr.FloatString(3), fooDenom, fooDenom)
 		}
 		return miss("epoch-not-applied", "other", "nothing at all happened at this epoch end (no gauge started, paid or finished); the reference expects payouts of %s and gauge transitions", e.total)
 	}
